@@ -102,4 +102,27 @@ def walkChain (E : Env) : Nat → KVs → String → WalkRes
         | _ => .stuck)
     | _ => .stuck
 
+/-- the error class the chain of service `n` gets stuck with, if it does: follow the links only; the first link that
+cannot be followed names the class (`notFound`, `noFile`, the load error of the file, `noServices`, `notFoundInFile`,
+`resolveErr`, `fileServicesNotMapping`, a malformed reference, `serviceNotMapping`) -/
+def stuckClass (E : Env) : Nat → KVs → String → Option String
+  | 0, _, _ => none
+  | fuel + 1, S, n =>
+    match lookup n S with
+    | some (.map svc) =>
+      (match lookup "extends" svc with
+      | none => none
+      | some e =>
+        match parseExtends e with
+        | .err c => some c
+        | .panic _ => none
+        | .ok (ref, file) =>
+          match resolveBase E "" n ref file S with
+          | .err c => some c
+          | .panic _ => none
+          | .ok (S', _, _) => stuckClass E fuel S' ref)
+    | some .null => none
+    | none => none
+    | some _ => some "serviceNotMapping"
+
 end CV.Extends
